@@ -149,8 +149,13 @@ int main(int argc, char** argv) {
     for (int i = 0; i < np; i++) { std::string cat; pool.push_back(gen_key(r, cat)); cats.push_back(cat); }
     int nops = r.range(5, maxops);
     for (int o = 0; o < nops; o++) {
-      int ki = r.below(np); const std::string& key = pool[ki];
+      int ki = r.below(np);
       int c = r.below(100);
+      if (c >= 42 && c < 86 && t->get_naux_values() > 0 && r.coin(1, 2)) { // lookups/removals: aim at a stored key half of the time
+        std::string want = t->get_aux_key(r.below(t->get_naux_values()));
+        for (int j = 0; j < np; j++) if (pool[j] == want) ki = j;
+      }
+      const std::string& key = pool[ki];
       std::string out;
       struct splinetable ct; ct.data = t;
       if (c < 42) { // writes
